@@ -51,7 +51,7 @@ def build(package, profile="debug", features=None, timeout=3000):
             cmd += ["--features", ",".join(features)]
         env = {"CARGO_TARGET_DIR": target, "RUSTFLAGS": "--cfg %s" % GUARD_CFG, "CARGO_NET_OFFLINE": "true"}
         p = sh(cmd, cwd=ws, env=env, timeout=timeout)
-        if p.returncode != 0 and "Cargo.lock" in (p.stderr or ""):
+        if p.returncode != 0 and any(w in (p.stderr or "") for w in ("Cargo.lock", "failed to select a version", "is yanked")):
             shutil.copy(lock_src, lock_dst)
             p = sh(cmd, cwd=ws, env=env, timeout=timeout)
     return p.returncode == 0, os.path.join(target, profile), (p.stdout + p.stderr)
